@@ -709,6 +709,12 @@ def run(ctx, col: Collector):
             col.check(q.a['quote'] == '"' and q.a['end'] == '"' and not q.a['multiline'] and q.a['unquote'] and not q.a['esc'], 'C01-lex', 'name:quoted',
                       'quoted identifiers are double-quoted, single-line, returned without the quotes, no escape processing',
                       f'quoted identifier token is {q.a}', node=_N(q), file=q.file)
+            col.check(not q.a.get('convert_ws'), 'C01-lex', 'name:quoted-verbatim',
+                      'a quoted identifier is exactly the characters between the quotes',
+                      'the quoted-identifier token converts the two-character sequences \\n, \\t, \\r, \\f into control characters (QuotedString\'s '
+                      'convert_whitespace_escapes defaults to True): `Table "a\\nb"` gets a name with a real line break - not what was declared, it cannot be '
+                      'written back as a quoted identifier (single-line token; the DBML renderer raises ValueError) and a tab comes back as spaces',
+                      node=_N(q), file=q.file)
         # string literal: three styles, one escape char, only ''' multi-line, all unquoted
         sl = gm.var('generic', 'string_literal')
         qs = [a for a in flatten_alt(sl, ('first', 'or')) if a.kind == 'quoted']
